@@ -338,8 +338,8 @@ func c13Gen(r *core.Run) *c13Case {
 		// a middle patch that changes size (forces rewrite even on the same
 		// path) or, with the hard link, a size-preserving one
 		kind := core.Pick(t, "patchkind", "grow-middle", "shrink-middle", "same-size", "append-eof")
-		if c.DestMode == "same" && (kind == "same-size" || kind == "append-eof") {
-			c.HardLink = true // otherwise in-place would be chosen (exempt)
+		if c.DestMode == "same" && (kind == "same-size" || kind == "append-eof") && !t.Chance(1, 4, "allow-in-place") {
+			c.HardLink = true // otherwise in-place would be chosen (exempt by the statement)
 		}
 		off := int64(t.Choose(n-40, "off"))
 		switch kind {
